@@ -391,3 +391,15 @@ package fox
 //@   ensures quiet: txnQuiet(txn)
 //@   ensures snapshot: result.tree == txn.rootTxn.tree && result.root == txn.rootTxn.root && result.maxDepth == txn.rootTxn.depth
 //@   ensures write-snapshot: txn.write ==> snapRef == nextref && cacheOK(txn.rootTxn)
+
+//@ -- ---------------------------------------------------------------- the iterator reads the roots it was created with
+//@ -- (for a write transaction or a snapshot of one these are the transaction's private roots, not the roots of the
+//@ -- tree the transaction started from): the loop bodies of Iter.Routes and Iter.Reverse
+//@ func (Iter).Routes$1$1 props C04,C02,C05 partial
+//@   requires c != nil && c.params != nil && c.tsrParams != nil && c.skipNds != nil
+//@   modifies heap, released, poolOut, jump$1
+//@   assert-at call (roots).lookup#1 : own-roots: arg_r == it.root && arg_t == it.tree && arg_lazy && same(arg_method, arg0) && same(arg_hostPort, host) && same(arg_path, path)
+//@ func (Iter).Reverse$1$1 props C04,C02,C05 partial
+//@   requires c != nil && c.params != nil && c.tsrParams != nil && c.skipNds != nil
+//@   modifies heap, released, poolOut, jump$1
+//@   assert-at call (roots).lookup#1 : own-roots: arg_r == it.root && arg_t == it.tree && arg_lazy && same(arg_method, arg0) && same(arg_hostPort, host)
